@@ -3,7 +3,7 @@ import TLVerif.Codec.TL2Lemmas
 Part 2 of the TL2 lemmas: reading back what the writer emitted (`tl2_roundtrip_gen`).
 
 `Good d fuel ty zie v` describes the values the theorem covers (explicit, syntax-directed):
-numbers in range, no float `-0.0` where the writer tests `x != 0`, struct values shaped like the type with absent
+numbers in range, struct values shaped like the type with absent
 optional fields `none`, presence-only (`bit`) fields holding their canonical value, dictionaries normalised,
 array lengths below 2^63, every encoded object shorter than 2^63 bytes (Go `int`), and **no `bit` reached through an
 alias, a `Maybe` or an array** (the excluded part is where the generated code itself does not round trip / does not
@@ -636,15 +636,16 @@ private theorem readU64_u64le (n : Nat) (h : n < 2 ^ 64) (rest : Bytes) : readU6
     simp only [Nat.shiftRight_eq_div_pow, Nat.shiftLeft_eq, Nat.reducePow] at *; omega
   rw [this]
 
-/-- primitive values covered by the round-trip theorem: numbers in range; where the writer tests emptiness (`zie`) a float
-is not `-0.0`; `bit` never occurs as a value of its own -/
+/-- primitive values covered by the round-trip theorem: numbers in range (floats are raw bit patterns, every pattern is
+covered, `-0.0` and NaNs included); `bit` never occurs as a value of its own.  The flag `zie` is not used any more (it
+excluded `-0.0` in empty-test positions while the generated code lost it); it is kept so that `Good` keeps its shape. -/
 def goodPrim : PrimK → Bool → Val → Bool
   | .u32, _, .nat n => decide (n < 2 ^ 32)
   | .i32, _, .nat n => decide (n < 2 ^ 32)
-  | .f32, zie, .nat n => decide (n < 2 ^ 32) && !(zie && n == 2 ^ 31)
+  | .f32, _, .nat n => decide (n < 2 ^ 32)
   | .u64, _, .nat n => decide (n < 2 ^ 64)
   | .i64, _, .nat n => decide (n < 2 ^ 64)
-  | .f64, zie, .nat n => decide (n < 2 ^ 64) && !(zie && n == 2 ^ 63)
+  | .f64, _, .nat n => decide (n < 2 ^ 64)
   | .byte, _, .nat n => decide (n < 256)
   | .str, _, .str _ => true
   | .bool _ _, _, .bool _ => true
@@ -717,14 +718,8 @@ theorem prim_roundtrip (k : PrimK) (zie c : Bool) (v : Val) (r : Option Bytes)
     cases v <;> simp only [goodPrim, decide_eq_true_eq] at hg <;> try exact absurd hg (by decide)
     exact num32_rt .i32 (Or.inr (Or.inl rfl)) zie c _ r hg (fun _ h => by simpa [primEmpty] using h) he
   | f32 =>
-    cases v <;> simp only [goodPrim, Bool.and_eq_true, decide_eq_true_eq] at hg <;> try exact absurd hg (by decide)
-    rename_i n
-    refine num32_rt .f32 (Or.inr (Or.inr rfl)) zie c n r hg.1 (fun hz h => ?_) he
-    have h2 := hg.2
-    simp only [hz, Bool.true_and, Bool.not_eq_true', beq_eq_false_iff_ne, ne_eq] at h2
-    simp only [primEmpty, beq_iff_eq] at h
-    have := hg.1
-    omega
+    cases v <;> simp only [goodPrim, decide_eq_true_eq] at hg <;> try exact absurd hg (by decide)
+    exact num32_rt .f32 (Or.inr (Or.inr rfl)) zie c _ r hg (fun _ h => by simpa [primEmpty] using h) he
   | u64 =>
     cases v <;> simp only [goodPrim, decide_eq_true_eq] at hg <;> try exact absurd hg (by decide)
     exact num64_rt .u64 (Or.inl rfl) zie c _ r hg (fun _ h => by simpa [primEmpty] using h) he
@@ -732,14 +727,8 @@ theorem prim_roundtrip (k : PrimK) (zie c : Bool) (v : Val) (r : Option Bytes)
     cases v <;> simp only [goodPrim, decide_eq_true_eq] at hg <;> try exact absurd hg (by decide)
     exact num64_rt .i64 (Or.inr (Or.inl rfl)) zie c _ r hg (fun _ h => by simpa [primEmpty] using h) he
   | f64 =>
-    cases v <;> simp only [goodPrim, Bool.and_eq_true, decide_eq_true_eq] at hg <;> try exact absurd hg (by decide)
-    rename_i n
-    refine num64_rt .f64 (Or.inr (Or.inr rfl)) zie c n r hg.1 (fun hz h => ?_) he
-    have h2 := hg.2
-    simp only [hz, Bool.true_and, Bool.not_eq_true', beq_eq_false_iff_ne, ne_eq] at h2
-    simp only [primEmpty, beq_iff_eq] at h
-    have := hg.1
-    omega
+    cases v <;> simp only [goodPrim, decide_eq_true_eq] at hg <;> try exact absurd hg (by decide)
+    exact num64_rt .f64 (Or.inr (Or.inr rfl)) zie c _ r hg (fun _ h => by simpa [primEmpty] using h) he
   | byte =>
     cases v <;> simp only [goodPrim, decide_eq_true_eq] at hg <;> try exact absurd hg (by decide)
     rename_i n
